@@ -91,16 +91,27 @@ func run(r *ev.Run) {
 	// stage 0: fsync-before-ack ordering observed with strace on the real OS
 	traced, why := straceUsable()
 	var stage0 sync.WaitGroup
-	if only := os.Getenv("VERIF_ONLY"); traced && (only == "" || strings.HasPrefix(only, "syscall-order")) {
+	only := os.Getenv("VERIF_ONLY")
+	if traced {
 		for _, kind := range []string{"localdisk", "diskpacked-leveldb"} {
+			// a replay of one diskpacked crash case still needs the observed pack write order of a
+			// remove to name its state the way the full run did
+			observeOnly := only != "" && !strings.HasPrefix(only, "syscall-order")
+			if observeOnly && (kind == "localdisk" || !strings.HasPrefix(only, "diskpacked")) {
+				if kind != "localdisk" {
+					close(packOrder.ready)
+				}
+				continue
+			}
 			stage0.Add(1)
 			go func() {
 				defer stage0.Done()
-				syscallOrder(r, kind, scratch)
+				syscallOrder(r, kind, scratch, observeOnly)
 			}()
 		}
-	} else if !traced {
-		r.Assume("strace unusable here (" + why + "): the fsync-before-ack ordering on the real OS was not observed; a missing fsync in diskpacked cannot be seen by this run")
+	} else {
+		close(packOrder.ready)
+		r.Assume("strace unusable here (" + why + "): the fsync-before-ack ordering on the real OS was not observed; a missing fsync in diskpacked cannot be seen by this run; the order in which a diskpacked remove rewrites the header and releases the body is ASSUMED (header first), a swap of the two cannot be seen by this run")
 	}
 
 	// stage 1: execute the histories, build the crash cases
@@ -158,7 +169,7 @@ func run(r *ev.Run) {
 	stage0.Wait()
 
 	// stage 3 (thorough): real SIGKILLs on the OS filesystem
-	if only := os.Getenv("VERIF_ONLY"); r.Thorough() && (only == "" || strings.HasPrefix(only, "kill-")) {
+	if r.Thorough() && (only == "" || strings.HasPrefix(only, "kill-")) {
 		var wg sync.WaitGroup
 		for _, k := range []struct {
 			kind string
@@ -182,7 +193,7 @@ func run(r *ev.Run) {
 	}
 
 	if traced {
-		r.Require("events", "syscall-order-localdisk", "syscall-order-diskpacked-leveldb")
+		r.Require("events", "syscall-order-localdisk", "syscall-order-diskpacked-leveldb", "remove-pack-order-observed")
 	}
 	r.Require("events", "torn-header", "torn-body", "roll-over-crash", "roll-over-while-continuing", "reindex-run", "torn-header-rewrite",
 		"continued-on-rebuilt-index", "index-ahead-retry", "retry-then-remove")
